@@ -1,5 +1,6 @@
 import VOPyVerif.Proofs.AcqSteps
 import VOPyVerif.Proofs.Thompson
+import VOPyVerif.Proofs.Locate
 import Mathlib.Analysis.Real.Sqrt
 /-!
 # C07 — samples go to the acquisition maximiser among active designs and reach the model
@@ -570,5 +571,171 @@ probability `C(3,2)/3² = 1/3` -/
 example : Thompson.priorProb 3 2 (Thompson.filledMask 3 2 [[0], [0], [0]]) 0 = 1 / 3 := by decide +kernel
 
 end Thompson
+
+
+section LocatePoints
+open VOPy.Problem VOPy.Locate
+
+/-! ## `locate_points` — design points back to design indices -/
+
+/-- **What a successful `locate_points` returns.**  If the call returns an index list, there was at
+least one query row and one design, the tolerance is non-negative, the list has one index per query
+row, and index `k` is a valid design whose point is THE nearest design point of `xs[k]` (first among
+ties, `np.argmin`) and lies within `atol` of it (squared distance ≤ atol²). -/
+theorem locate_sound (xs X : Mat) (atol : Rat) (idx : List Nat)
+    (h : locate xs X atol = .ok idx) :
+    xs ≠ [] ∧ X ≠ [] ∧ idx.length = xs.length ∧
+    ∀ (k : Nat) (hk : k < xs.length), ∃ i, idx[k]? = some i ∧ ∃ hi : i < X.length,
+      nearestFirst xs[k] X = some i ∧ 0 ≤ atol ∧ sqDist xs[k] X[i] ≤ atol * atol ∧
+      ∀ (j : Nat) (hj : j < X.length), sqDist xs[k] X[i] ≤ sqDist xs[k] X[j] := by
+  unfold locate at h
+  split at h
+  · cases h
+  · rename_i hne
+    have hxs : xs ≠ [] := by intro h0; simp [h0] at hne
+    have hX : X ≠ [] := by intro h0; simp [h0] at hne
+    cases hm : xs.mapM (fun x => locOne x X) with
+    | none => simp [hm] at h
+    | some ps =>
+      simp only [hm] at h
+      split at h
+      · cases h
+      · rename_i hany
+        cases h
+        obtain ⟨hlen, hrow⟩ := (mapM_option_spec _ xs ps).mp hm
+        refine ⟨hxs, hX, by simp [hlen], ?_⟩
+        intro k hk
+        obtain ⟨p, hp, hloc⟩ := hrow k xs[k] (List.getElem?_eq_getElem hk)
+        obtain ⟨i, d⟩ := p
+        obtain ⟨hn, hi, rfl⟩ := (locOne_eq_some_iff _ _ _ _).mp hloc
+        have hmem : (i, sqDist xs[k] X[i]) ∈ ps := List.mem_of_getElem? hp
+        have hnot : tooFar atol (sqDist xs[k] X[i]) = false := by
+          have := hany
+          simp only [List.any_eq_true, not_exists, not_and, Bool.not_eq_true] at this
+          exact this _ hmem
+        obtain ⟨h0, hle⟩ := (not_tooFar_iff _ _).mp hnot
+        refine ⟨i, by simp [List.getElem?_map, hp], hi, (nearestFirst_iff _ _ _).mpr hn, h0, hle, hn.2.1⟩
+
+/-- **When `locate_points` raises.**  The `ValueError` is raised exactly when there is no query row,
+no design, or some query row is farther than `atol` from EVERY design (a negative tolerance rejects
+everything). -/
+theorem locate_raises_iff (xs X : Mat) (atol : Rat) :
+    locate xs X atol = .valueError ↔
+      xs = [] ∨ X = [] ∨ ∃ x ∈ xs, ∀ r ∈ X, atol < 0 ∨ atol * atol < sqDist x r := by
+  unfold locate
+  by_cases hxs : xs = []
+  · simp [hxs]
+  by_cases hX : X = []
+  · simp [hX]
+  have hne : (xs.isEmpty || X.isEmpty) = false := by
+    simp [hxs, hX]
+  simp only [hne, Bool.false_eq_true, if_false, hxs, hX, false_or]
+  obtain ⟨ps, hps⟩ := mapM_locOne xs X hX
+  obtain ⟨hlen, hrow⟩ := (mapM_option_spec _ xs ps).mp hps
+  simp only [hps]
+  constructor
+  · intro h
+    split at h
+    · rename_i hany
+      obtain ⟨p, hp, hfar⟩ := List.any_eq_true.mp hany
+      obtain ⟨k, hk, hpk⟩ := List.getElem_of_mem hp
+      have hkx : k < xs.length := hlen ▸ hk
+      obtain ⟨p', hp', hloc⟩ := hrow k xs[k] (List.getElem?_eq_getElem hkx)
+      rw [List.getElem?_eq_getElem hk, hpk] at hp'
+      cases hp'
+      obtain ⟨i, d⟩ := p
+      obtain ⟨hn, hi, rfl⟩ := (locOne_eq_some_iff _ _ _ _).mp hloc
+      refine ⟨xs[k], List.getElem_mem hkx, ?_⟩
+      intro r hr
+      obtain ⟨j, hj, rfl⟩ := List.getElem_of_mem hr
+      rcases (tooFar_iff _ _).mp hfar with h1 | h1
+      · exact Or.inl h1
+      · exact Or.inr (lt_of_lt_of_le h1 (hn.2.1 j hj))
+    · cases h
+  · rintro ⟨x, hx, hall⟩
+    obtain ⟨k, hk, rfl⟩ := List.getElem_of_mem hx
+    obtain ⟨p, hp, hloc⟩ := hrow k xs[k] (List.getElem?_eq_getElem hk)
+    obtain ⟨i, d⟩ := p
+    obtain ⟨hn, hi, rfl⟩ := (locOne_eq_some_iff _ _ _ _).mp hloc
+    have hfar : tooFar atol (sqDist xs[k] X[i]) = true :=
+      (tooFar_iff _ _).mpr (hall _ (List.getElem_mem hi))
+    have hany : ps.any (fun p => tooFar atol p.2) = true :=
+      List.any_eq_true.mpr ⟨_, List.mem_of_getElem? hp, hfar⟩
+    simp [hany]
+
+/-- **Round trip on the grid.**  If the design points are pairwise distinct, all of one dimension,
+every query row IS a design point and the tolerance is non-negative, then `locate_points` succeeds and
+index `k` is the unique design whose point equals `xs[k]` — so handing the optimiser's chosen POINTS to
+`locate_points` recovers exactly the chosen DESIGNS. -/
+theorem locate_on_grid (xs X : Mat) (atol : Rat) (hat : 0 ≤ atol) (hxs : xs ≠ [])
+    (hdim : ∀ r ∈ X, ∀ x ∈ xs, r.length = x.length) (hmem : ∀ x ∈ xs, x ∈ X) (hnd : X.Nodup) :
+    ∃ idx, locate xs X atol = .ok idx ∧ idx.length = xs.length ∧
+      ∀ (k : Nat) (hk : k < xs.length), ∃ i, idx[k]? = some i ∧ ∃ hi : i < X.length,
+        X[i] = xs[k] ∧ ∀ (j : Nat) (hj : j < X.length), X[j] = xs[k] → j = i := by
+  have hX : X ≠ [] := by
+    obtain ⟨x, hx⟩ := List.exists_mem_of_ne_nil xs hxs
+    exact List.ne_nil_of_mem (hmem x hx)
+  cases hloc : locate xs X atol with
+  | valueError =>
+    exfalso
+    rcases (locate_raises_iff xs X atol).mp hloc with h | h | ⟨x, hx, hall⟩
+    · exact hxs h
+    · exact hX h
+    · rcases hall x (hmem x hx) with h | h
+      · exact absurd h (not_lt.mpr hat)
+      · rw [sqDist_self] at h
+        exact absurd h (not_lt.mpr (mul_self_nonneg atol))
+  | ok idx =>
+    obtain ⟨_, _, hlen, hrow⟩ := locate_sound xs X atol idx hloc
+    refine ⟨idx, rfl, hlen, ?_⟩
+    intro k hk
+    obtain ⟨i, hik, hi, _, _, _, hmin⟩ := hrow k hk
+    obtain ⟨j0, hj0, hj0x⟩ := List.getElem_of_mem (hmem _ (List.getElem_mem hk))
+    have h0 : sqDist xs[k] X[i] = 0 := by
+      have h1 := hmin j0 hj0
+      rw [hj0x, sqDist_self] at h1
+      exact le_antisymm h1 (sqDist_nonneg _ _)
+    have hxi : xs[k] = X[i] :=
+      sqDist_eq_zero (hdim _ (List.getElem_mem hi) _ (List.getElem_mem hk)).symm h0
+    refine ⟨i, hik, hi, hxi.symm, ?_⟩
+    intro j hj hjx
+    exact (List.Nodup.getElem_inj_iff hnd).mp (hjx.trans hxi)
+
+/-- **The squared test is the distance test.**  For a squared distance `d ≥ 0` and any tolerance, the
+model's exact test on squares is the code's `distance > atol` with `distance = √d`. -/
+theorem tooFar_iff_sqrt (atol d : Rat) (hd : 0 ≤ d) :
+    tooFar atol d = true ↔ (atol : ℝ) < Real.sqrt (d : ℝ) := by
+  rw [tooFar_iff]
+  have hdR : (0 : ℝ) ≤ (d : ℝ) := by exact_mod_cast hd
+  constructor
+  · rintro (h | h)
+    · have : (atol : ℝ) < 0 := by exact_mod_cast h
+      exact lt_of_lt_of_le this (Real.sqrt_nonneg _)
+    · by_cases ha : atol < 0
+      · have : (atol : ℝ) < 0 := by exact_mod_cast ha
+        exact lt_of_lt_of_le this (Real.sqrt_nonneg _)
+      · have ha' : (0 : ℝ) ≤ (atol : ℝ) := by exact_mod_cast not_lt.mp ha
+        have hR : (atol : ℝ) * atol < d := by exact_mod_cast h
+        rw [Real.lt_sqrt ha']
+        nlinarith
+  · intro h
+    by_cases ha : atol < 0
+    · exact Or.inl ha
+    · right
+      have ha' : (0 : ℝ) ≤ (atol : ℝ) := by exact_mod_cast not_lt.mp ha
+      rw [Real.lt_sqrt ha'] at h
+      have : (atol : ℝ) * atol < d := by nlinarith
+      exact_mod_cast this
+
+/-- non-vacuity: three designs, queries = design 2 then design 0 (exactly), and a point 1/8 away
+from design 1 — located within `atol = 1/4`, rejected with `atol = 1/16`; no design ⇒ `ValueError` -/
+example : locate [[1, 1], [0, 0]] [[0, 0], [1, 0], [1, 1]] (1/1000000) = .ok [2, 0] := by decide +kernel
+example : locate [[1, 1/8]] [[0, 0], [1, 0], [1, 1]] (1/4) = .ok [1] := by decide +kernel
+example : locate [[1, 1/8]] [[0, 0], [1, 0], [1, 1]] (1/16) = .valueError := by decide +kernel
+example : locate [[1, 1]] [] 1 = .valueError := by decide +kernel
+example : locate [] [[1, 1]] 1 = .valueError := by decide +kernel
+
+
+end LocatePoints
 
 end VOPy.C07
